@@ -13,6 +13,7 @@ import (
 
 	"verif/harness/internal/engine"
 	"verif/harness/internal/ev"
+	"verif/harness/internal/loglevel"
 	"verif/harness/internal/vclock"
 )
 
@@ -351,6 +352,8 @@ type hist struct {
 	Config  config `json:"config"`
 	StartNs int64  `json:"start_ns_offset"`
 	Steps   []step `json:"steps"`
+	// LogLevel: the gateway's log level (LOG_LEVEL), output discarded; "" / "off" = logging disabled
+	LogLevel string `json:"log_level,omitempty"`
 }
 
 var scratch string
@@ -381,6 +384,11 @@ func txn(id string, level int, group string, now time.Time) engine.Txn {
 }
 
 func runHistory(h hist) (nontrivial bool, classes []string, err error) {
+	loglevel.With(h.LogLevel, func() { nontrivial, classes, err = runHistoryAtLevel(h) })
+	return
+}
+
+func runHistoryAtLevel(h hist) (nontrivial bool, classes []string, err error) {
 	clk := vclock.New(time.Unix(1_700_000_000, h.StartNs))
 	engine.SetClock(clk)
 	metrics := engine.NewMetrics()
@@ -555,6 +563,8 @@ func TestFixedWindowHistories(t *testing.T) {
 		h := hist{Config: cfg,
 			StartNs: rapid.SampledFrom([]int64{0, 0, 1, 400_000_000, 900_000_000, 999_999_999}).Draw(t, "startns"),
 			Steps:   genSteps(cfg).Draw(t, "steps")}
+		h.LogLevel = loglevel.Gen().Draw(t, "log level")
+		r.Class("log level " + h.LogLevel)
 		r.Case()
 		maxDepth, grouped := 0, false
 		for i := range cfg.Nodes {
